@@ -191,8 +191,10 @@ fn gen_suffix(r: &mut Rng) -> String {
         "key", "passkey", "k", "passport", "transport", "cleft", "xevent", "prevent", "numwant", "port", "left", "info_hash",
         "peer_id", "uploaded", "downloaded", "event", "compact", "a", "peer", "id", "por", "eft",
     ];
-    const VALS: [&str; 7] = ["1", "abc123", "a+b", "abc%20def", "", "tcp", "0"];
-    let path = *r.pick(&["/announce", "/a/b/announce.php", "", "/ann"]);
+    // (a blank inside the URL: percent-encoded on the wire by the `url` crate; tabs and line ends are *removed* by URL
+    // parsing itself and are left out)
+    const VALS: [&str; 8] = ["1", "abc123", "a+b", "abc%20def", "", "tcp", "0", "John Doe"];
+    let path = *r.pick(&["/announce", "/a/b/announce.php", "", "/ann", "/my tracker/announce"]);
     let n = 1 + r.below(3);
     let q: Vec<String> = (0..n).map(|_| format!("{}={}", r.pick(&KEYS), r.pick(&VALS))).collect();
     format!("{}?{}", path, q.join("&"))
